@@ -1,4 +1,4 @@
-(* GENERATED from /tmp/try-C16-22555 by harness/c16.py on every run; do not edit *)
+(* GENERATED from /repo by harness/c16.py on every run; do not edit *)
 From Coq Require Import ZArith List.
 Import ListNotations.
 Open Scope Z_scope.
